@@ -530,7 +530,7 @@ main(int argc, char **argv)
 			c.budget[VB_WAKE1]   = 1;
 			c.budget[VB_ENV]     = -1;
 			c.total              = w == W_CTXOP ? 3 : T ? 2 : 1;
-			c.deadline_s         = T ? (w == W_CTXOP ? 240 : 40) : (w == W_CTXOP ? 30 : 6);
+			c.deadline_s         = T ? (w == W_CTXOP ? 240 : 150) : (w == W_CTXOP ? 30 : 6);
 			vx_explore(&c, NULL);
 		}
 	for (int p = 0; p < NP; p++) {
